@@ -1,6 +1,7 @@
 import IndicatifModel.Model.Bar
 import IndicatifModel.Proofs.Rows
 import IndicatifModel.Proofs.BarReq
+import IndicatifModel.Generated.FinishArms
 /-!
 # C04 — finishing or dropping always paints the final state (single bar, model level)
 -/
@@ -137,5 +138,32 @@ theorem C04_finished_rows_remain (lim : Option (Limiter.Cfg × Limiter.St)) (now
   rw [(h.frame hs).2, ho, paintedOf_append, ← h.synced k hk hf hm]
   simp only [paintedOf, List.flatMap_cons, List.append_assoc]
   rfl
+
+/-! ## the finishing function as the source has it (`tools/gen_finish.py`, regenerated on every run) -/
+
+def variantName : Finish → String
+  | .andLeave => "AndLeave" | .withMessage _ => "WithMessage" | .andClear => "AndClear"
+  | .abandon => "Abandon" | .abandonWithMessage _ => "AbandonWithMessage"
+
+/-- what an arm of `match finish` does, read from its flags: (carries a message, position to the length, message replaced, hidden) -/
+def applyArm (b : Bar) (f : Finish) (arm : String × Bool × Bool × Bool × Bool) : Bar :=
+  let b := { b with status := .doneVisible }
+  let b := if arm.2.2.1 then (match b.len with | some l => { b with pos := l } | none => b) else b
+  let b := if arm.2.2.2.1 then (match f with | .withMessage m => { b with msg := m } | .abandonWithMessage m => { b with msg := m } | _ => b) else b
+  if arm.2.2.2.2 then { b with status := .doneHidden } else b
+
+/-- **the source as regenerated**: `BarState::finish_using_style` marks the bar `DoneVisible`, runs the arm of the finish behaviour —
+read off the source: whether it moves the position to the length, replaces the message, hides the bar — and ends with a *forced*
+draw; for every bar, instant and finish behaviour that is exactly the model's `Bar.finishUsing`, which the C04 theorems are about.
+An arm that stops moving the position, a finish that no longer forces its draw, a new variant: the table or the generator's frame
+check changes and this theorem is no longer checked. -/
+theorem C04_source_finish (b : Bar) (now : Nat) (f : Finish) :
+    ∃ arm ∈ Generated.finishArms, arm.1 = variantName f ∧ Bar.finishUsing b now f = (applyArm b f arm).draw true now := by
+  cases f with
+  | andLeave => exact ⟨("AndLeave", false, true, false, false), by decide, rfl, by cases hl : b.len <;> simp [Bar.finishUsing, applyArm, hl]⟩
+  | withMessage m => exact ⟨("WithMessage", true, true, true, false), by decide, rfl, by cases hl : b.len <;> simp [Bar.finishUsing, applyArm, hl]⟩
+  | andClear => exact ⟨("AndClear", false, true, false, true), by decide, rfl, by cases hl : b.len <;> simp [Bar.finishUsing, applyArm, hl]⟩
+  | abandon => exact ⟨("Abandon", false, false, false, false), by decide, rfl, by simp [Bar.finishUsing, applyArm]⟩
+  | abandonWithMessage m => exact ⟨("AbandonWithMessage", true, false, true, false), by decide, rfl, by simp [Bar.finishUsing, applyArm]⟩
 
 end IndicatifModel.Rows
